@@ -548,6 +548,12 @@ func (s *safety) lenLin(x ssa.Value, facts *[]ineq, depth int) lin {
 		}
 	case *ssa.MakeSlice:
 		return s.toLin(v.Len, facts, depth+1)
+	case *ssa.UnOp:
+		// a field of a local struct that was assigned earlier in the same
+		// straight-line code (c.List = make([]T, 3); c.List[0] = ...)
+		if st := localFieldStore(v); st != nil {
+			return s.lenLin(st.Val, facts, depth+1)
+		}
 	case *ssa.Convert:
 		return s.lenLin(v.X, facts, depth+1)
 	case *ssa.ChangeType:
@@ -579,6 +585,57 @@ func (s *safety) lenLin(x ssa.Value, facts *[]ineq, depth int) lin {
 		return a
 	}
 	return s.lenAtom(x, facts)
+}
+
+// localFieldStore: ld reads field f of a local struct variable; returns the
+// store to that same field that precedes it in its block when nothing in
+// between can have changed the field (no call that is given the variable's
+// address, no store to the whole variable or to that field).
+func localFieldStore(ld *ssa.UnOp) *ssa.Store {
+	if ld.Op != token.MUL {
+		return nil
+	}
+	fa, ok := ld.X.(*ssa.FieldAddr)
+	if !ok {
+		return nil
+	}
+	al, ok := fa.X.(*ssa.Alloc)
+	if !ok {
+		return nil
+	}
+	// the variable's address is only used to select fields, to load or store
+	// it whole, or as a method receiver / argument of calls (checked below)
+	instrs := ld.Block().Instrs
+	at := -1
+	for i, in := range instrs {
+		if in == ssa.Instruction(ld) {
+			at = i
+		}
+	}
+	for i := at - 1; i >= 0; i-- {
+		switch x := instrs[i].(type) {
+		case *ssa.Store:
+			if f2, ok := x.Addr.(*ssa.FieldAddr); ok && f2.X == ssa.Value(al) && f2.Field == fa.Field {
+				return x
+			}
+			if x.Addr == ssa.Value(al) {
+				return nil
+			}
+		case ssa.CallInstruction:
+			for _, a := range x.Common().Args {
+				if a == ssa.Value(al) {
+					return nil
+				}
+				if f2, ok := a.(*ssa.FieldAddr); ok && f2.X == ssa.Value(al) && f2.Field == fa.Field {
+					return nil
+				}
+			}
+			if x.Common().IsInvoke() && x.Common().Value == ssa.Value(al) {
+				return nil
+			}
+		}
+	}
+	return nil
 }
 
 func (s *safety) lenAtom(x ssa.Value, facts *[]ineq) lin {
